@@ -266,6 +266,13 @@ def oracle(run: runner.Run, oc: Outcome) -> None:
                     if common.finished(rec) and rec.get('subrefs') and not rec.get('failure'):
                         for sub in rec['subrefs']:
                             subrec = after_recs.get(st.key_name(sub))
+                            # (a child that had finished, and whose record then went with the leftovers of a superseded
+                            # cause while the re-purposed parent's stayed, did not finish after its parent)
+                            seen_fin = oc.__dict__.setdefault('_children_seen_finished', {}).setdefault(uid, set())
+                            if common.finished(subrec) or common.finished(before_recs.get(st.key_name(sub))):
+                                seen_fin.add(st.key_name(sub))
+                            if subrec is None and st.key_name(sub) in seen_fin:
+                                continue
                             if not common.finished(subrec):
                                 oc.add('C02/parent-before-children', 'parent-finished',
                                        f"{uid}: parent record {key} is finished while its sub-handler {sub} is not "
